@@ -348,6 +348,50 @@ def nodeaxis_fn(case):
     return r
 
 
+def nearlyeven_fn(case):
+    """Axes that are evenly spaced only to about six digits (half-decade pressures written as 3.16228, temperatures as
+    read from a text file) with strongly contrasting neighbouring nodes: a request a hair beside a node is still
+    bracketed by the nodes of the cell it lies in."""
+    r = core.R(case)
+    fx.reset_caches()
+    mode, lay = case['mode'], case['layout']
+    Pg = np.array([1.0, 3.16228, 10.0, 31.6228, 100.0, 316.228, 1000.0])
+    Tg = np.array([300.0, 600.001, 900.0, 1200.002, 1500.0])
+    wn = fx.WN_GRIDS[4]
+    g = fx.rng('c04-nearlyeven')
+    x = 10 ** g.uniform(-0.3, 0.3, size=(len(Pg), len(Tg), 4)) * 1e-24
+    contrast = np.where((np.arange(len(Pg))[:, None] + np.arange(len(Tg))[None, :]) % 2 == 0, 1e-6, 1e4)
+    x = x * contrast[:, :, None]
+    isk = lay != 'xsec'
+    if isk:
+        x = x[..., None] * np.array([1.0, 2.5])[None, None, None, :]
+        op = fx.TinyK('H2O', wn, Tg, Pg, x, [0.4, 0.6], mode)
+    else:
+        op = fx.TinyOp('H2O', wn, Tg, Pg, x, mode)
+    n = 0
+    for axis in ('P', 'T'):
+        nodes = Pg if axis == 'P' else Tg
+        for k in range(1, len(nodes) - 1):
+            for eps in (-3e-6, -1e-6, -2e-7, 2e-7, 1e-6, 3e-6):
+                if axis == 'P':
+                    P, T = float(nodes[k] * (1.0 + eps)), 750.0
+                else:
+                    P, T = 17.0, float(nodes[k] * (1.0 + eps))
+                got = np.asarray(op.opacity(T, P, None), dtype=float)
+                lo, hi = opac.bracket_nodes(x, Tg, Pg, T, P)
+                n += 1
+                slack = 1e-9 * hi
+                r.check(bool(np.all(np.isfinite(got)) and np.all(got >= lo - slack) and np.all(got <= hi + slack)), 'bracket',
+                        'nearly-even/bracket/%s/%s/%s' % (axis, mode, 'ktable' if isk else 'xsec'), T=T, P=P, got=got,
+                        lo=lo, hi=hi)
+                r.eq(got, opac.interp_opacity(x, Tg, Pg, T, P, mode), 'cell-value',
+                     'nearly-even/value/%s/%s/%s' % (axis, mode, 'ktable' if isk else 'xsec'), rtol=1e-6, T=T, P=P)
+    r.count('requests', n)
+    r.observe(n)
+    r.nontrivial = True
+    return r
+
+
 def bigtable_fn(case):
     """A table with more spectral points than any power-of-two block an interpolation kernel might work in: every
     wavenumber of the interior, edge and outside answers against the reference."""
@@ -397,6 +441,8 @@ def explore(ctx):
     na = [{'e': e_, 'unit': u_, 'mode': md, 'layout': lay} for e_ in es for u_ in ('Pa', 'bar')
           for md, lay in (('linear', 'xsec'), ('exp', 'xsec'), ('exp', 'k2'))]
     ctx.run_cases('nodeaxis_fn', na, phase='pressure-nodes')
+    ne = [{'mode': md, 'layout': lay} for md in ('linear', 'exp') for lay in ('xsec', 'k2')]
+    ctx.run_cases('nearlyeven_fn', ne, phase='nearly-even-axes')
     shapes = [(2, 2), (2, 3), (3, 2), (3, 3)]
     if ctx.tier == 'thorough':
         shapes += [(4, 4), (2, 4), (4, 3), (4, 2), (3, 4)]
